@@ -12,6 +12,37 @@ fn rt() -> tokio::runtime::Runtime {
     tokio::runtime::Builder::new_current_thread().enable_all().build().unwrap()
 }
 
+
+/// A sink whose `write` accepts at most `max` bytes per call and which implements nothing but `write`/`flush`
+/// (so the default `write_vectored`/`write_all` machinery is exercised with short writes).
+struct ShortWriter {
+    out: Vec<u8>,
+    max: usize,
+}
+impl std::io::Write for ShortWriter {
+    fn write(&mut self, buf: &[u8]) -> std::io::Result<usize> {
+        let n = buf.len().min(self.max.max(1));
+        self.out.extend_from_slice(&buf[..n]);
+        Ok(n)
+    }
+    fn flush(&mut self) -> std::io::Result<()> {
+        Ok(())
+    }
+}
+impl tokio::io::AsyncWrite for ShortWriter {
+    fn poll_write(mut self: std::pin::Pin<&mut Self>, _cx: &mut std::task::Context<'_>, buf: &[u8]) -> std::task::Poll<std::io::Result<usize>> {
+        let n = buf.len().min(self.max.max(1));
+        self.out.extend_from_slice(&buf[..n]);
+        std::task::Poll::Ready(Ok(n))
+    }
+    fn poll_flush(self: std::pin::Pin<&mut Self>, _cx: &mut std::task::Context<'_>) -> std::task::Poll<std::io::Result<()>> {
+        std::task::Poll::Ready(Ok(()))
+    }
+    fn poll_shutdown(self: std::pin::Pin<&mut Self>, _cx: &mut std::task::Context<'_>) -> std::task::Poll<std::io::Result<()>> {
+        std::task::Poll::Ready(Ok(()))
+    }
+}
+
 // ------------------------------------------------------------------------------------------
 // execution of op lines against the real code
 // ------------------------------------------------------------------------------------------
@@ -61,7 +92,15 @@ fn exec(out: &mut Out, line: &str, rtm: &tokio::runtime::Runtime) -> (String, bo
             let q = unhex(w[13]).unwrap();
             let b = unhex(w[14]).unwrap();
             let cap: usize = w[15].parse().unwrap();
+            // optional: spare capacity of the query Vec, and the per-call limit of the short-write sinks
+            let qspare: usize = w.get(16).and_then(|x| x.parse().ok()).unwrap_or(0);
+            let wmax: usize = w.get(17).and_then(|x| x.parse().ok()).unwrap_or(7);
             let h = rh.to_repe();
+            let mk_query = || {
+                let mut v = Vec::with_capacity(q.len() + qspare);
+                v.extend_from_slice(&q);
+                v
+            };
             let mk_body = || {
                 let mut v = Vec::with_capacity(cap.max(b.len()));
                 v.extend_from_slice(&b);
@@ -76,11 +115,21 @@ fn exec(out: &mut Out, line: &str, rtm: &tokio::runtime::Runtime) -> (String, bo
             if realcap != cap.max(b.len()) {
                 out.count("wire.cap_not_exact");
             }
-            let r2 = Message { header: h, query: q.clone(), body: body2 }.into_wire_bytes();
+            let r2 = Message { header: h, query: mk_query(), body: body2 }.into_wire_bytes();
             let mut r3 = Vec::new();
             repe::write_message(&mut r3, &m).unwrap();
             let mut r4 = Vec::new();
             rtm.block_on(async { repe::async_io::write_message_async(&mut r4, &m).await.unwrap() });
+            // the same routes into sinks that take only a few bytes per write call
+            let mut sw = ShortWriter { out: Vec::new(), max: wmax };
+            m.write_to(&mut sw).unwrap();
+            let r1s = std::mem::take(&mut sw.out);
+            repe::write_message(&mut sw, &m).unwrap();
+            let r3s = std::mem::take(&mut sw.out);
+            rtm.block_on(async { repe::async_io::write_message_async(&mut sw, &m).await.unwrap() });
+            let r4s = std::mem::take(&mut sw.out);
+            let _ = repe::write_message_streaming(&mut sw, h, &q, b.len() as u64, |w: &mut ShortWriter| std::io::Write::write_all(w, &b));
+            let r5short = std::mem::take(&mut sw.out);
             let mut r5 = Vec::new();
             let r5res = catch(|| {
                 repe::write_message_streaming(&mut r5, h, &q, b.len() as u64, |w: &mut Vec<u8>| {
@@ -93,7 +142,8 @@ fn exec(out: &mut Out, line: &str, rtm: &tokio::runtime::Runtime) -> (String, bo
             if r0 != want {
                 out.oracle_fail("wire.to_vec.layout", &format!("to_vec differs from the spec layout at case {}", idx), &ops);
             }
-            for (name, r) in [("write_to", &r1), ("into_wire_bytes", &r2), ("write_message", &r3), ("write_message_async", &r4)] {
+            for (name, r) in [("write_to", &r1), ("into_wire_bytes", &r2), ("write_message", &r3), ("write_message_async", &r4),
+                ("write_to.short_writes", &r1s), ("write_message.short_writes", &r3s), ("write_message_async.short_writes", &r4s)] {
                 if *r != r0 {
                     out.oracle_fail(&format!("wire.route.{}", name), &format!("route {} differs from to_vec (cap {})", name, cap), &ops);
                 }
@@ -106,6 +156,9 @@ fn exec(out: &mut Out, line: &str, rtm: &tokio::runtime::Runtime) -> (String, bo
             ph.body_length = b.len() as u64;
             ph.length = 48 + q.len() as u64 + b.len() as u64;
             let want5 = RawFrame { h: ph, query: q.clone(), body: b.clone() }.to_vec();
+            if r5short != want5 {
+                out.oracle_fail("wire.route.write_message_streaming.short_writes", &format!("streamed frame through a sink taking {} bytes per write differs from the patched spec layout", wmax), &ops);
+            }
             let r5s = match r5res {
                 Ok(Ok(())) => {
                     if r5 != want5 {
@@ -125,6 +178,15 @@ fn exec(out: &mut Out, line: &str, rtm: &tokio::runtime::Runtime) -> (String, bo
                 let ok3 = matches!(MessageView::from_slice(&r0), Ok(v) if v.header == m.header && v.query == &q[..] && v.body == &b[..]);
                 let ok4 = matches!(MessageView::from_slice_exact(&r0), Ok(v) if v.header == m.header && v.query == &q[..] && v.body == &b[..]);
                 let ok5 = matches!(repe::read_message(&mut &r0[..]), Ok(ref p) if *p == m);
+                // a frame followed by more bytes (pipelining): the non-exact parsers must return exactly the frame
+                let mut longer = r0.clone();
+                longer.extend_from_slice(&[0xA5, 0x5A, 0x00, 0xFF, 0x07][..(1 + cap % 5)]);
+                let ok6 = matches!(Message::from_slice(&longer), Ok(ref p) if *p == m);
+                let ok7 = matches!(MessageView::from_slice(&longer), Ok(v) if v.header == m.header && v.query == &q[..] && v.body == &b[..]);
+                let ok8 = MessageView::from_slice_exact(&longer).is_err() && Message::from_slice_exact(&longer).is_err();
+                if !(ok6 && ok7 && ok8) {
+                    out.oracle_fail("wire.roundtrip.trailing", &format!("frame followed by extra bytes: owned {} view {} exact-rejects {}", ok6, ok7, ok8), &ops);
+                }
                 if !(ok1 && ok2 && ok3 && ok4 && ok5) {
                     out.oracle_fail("wire.roundtrip", &format!("parse(emit(m)) != m ({} {} {} {} {})", ok1, ok2, ok3, ok4, ok5), &ops);
                 }
@@ -218,6 +280,49 @@ fn exec(out: &mut Out, line: &str, rtm: &tokio::runtime::Runtime) -> (String, bo
             }).map_err(|e| e.clone());
             parse_oracle(out, line, op, &bs, &conv);
             (format!("{} {}", idx, show_res(r, |buf| hex(buf))), nontrivial)
+        }
+        "reads0" | "reads1" | "reads2" | "reads3" => {
+            // a whole stream of pipelined frames read with ONE reader value and (for the into-readers) ONE reused
+            // buffer that starts with spare capacity, the way the servers use them
+            let bs = unhex(w[2]).unwrap();
+            let op = w[0];
+            let r = catch(|| {
+                let mut frames: Vec<Vec<u8>> = Vec::new();
+                let mut cur = &bs[..];
+                let mut buf: Vec<u8> = Vec::with_capacity(4096);
+                let end = loop {
+                    let res: Result<Vec<u8>, repe::RepeError> = match op {
+                        "reads0" => repe::read_message(&mut cur).map(|m| m.to_vec()),
+                        "reads2" => rtm.block_on(async { repe::async_io::read_message_async(&mut cur).await }).map(|m| m.to_vec()),
+                        "reads1" => repe::read_message_into(&mut cur, &mut buf).map(|_| buf.clone()),
+                        _ => rtm.block_on(async { repe::async_io::read_message_into_async(&mut cur, &mut buf).await }).map(|_| buf.clone()),
+                    };
+                    match res {
+                        Ok(f) => frames.push(f),
+                        Err(e) => break err_class(&e),
+                    }
+                    if frames.len() > 10_000 { break "runaway".to_string(); }
+                };
+                (frames, end)
+            });
+            let ops = vec![line.to_string()];
+            match r {
+                Err(msg) => {
+                    out.oracle_fail(&format!("parse.{}.panic", op), &format!("pipelined read panicked: {}", msg), &ops);
+                    (format!("{} PANIC", idx), false)
+                }
+                Ok((frames, end)) => {
+                    // independent oracle: the frames are exactly the whole consistent frames at the front of the stream
+                    let (want, _tail) = RawFrame::split_stream(&bs);
+                    let want: Vec<Vec<u8>> = want.iter().map(|f| f.to_vec()).collect();
+                    if frames != want {
+                        out.oracle_fail(&format!("parse.{}.pipelined_frames", op), &format!("reading a pipelined stream returned {} frames, the stream holds {} whole frames (or their bytes differ)", frames.len(), want.len()), &ops);
+                    }
+                    out.count(&format!("parse.{}.frames", op));
+                    let shown: Vec<String> = frames.iter().map(|f| format!("{}:{:016x}", f.len(), fnv(f))).collect();
+                    (format!("{} n={} [{}] end={}", idx, frames.len(), shown.join(","), end), !frames.is_empty())
+                }
+            }
         }
         other => panic!("unknown op {}", other),
     }
@@ -320,7 +425,9 @@ fn gen_wire(r: &mut Rng, n: usize, big_every: usize) -> Vec<String> {
             4 => 2 * total,
             _ => b.len() + r.below(total as u64 + 2) as usize,
         };
-        ops.push(format!("msg {} {} {} {} {}", i, h.fields(), hex(&q), hex(&b), cap));
+        let qspare = *r.pick(&[0usize, 0, 1, 47, 48, 49, 128, 4096]);
+        let wmax = *r.pick(&[1usize, 2, 7, 8, 47, 48, 49, 50, 64, 1000]);
+        ops.push(format!("msg {} {} {} {} {} {} {}", i, h.fields(), hex(&q), hex(&b), cap, qspare, wmax));
         if i % 5 == 0 {
             let ec = *r.pick(&[0u32, 1, 2, 3, 4, 5, 6, 7, 8, 9, 4096]);
             ops.push(format!("build {}b {} {} {} {} {} {} {}", i, r.boundary(64), r.below(2), ec, r.boundary(16), r.boundary(16), hex(&q), hex(&b)));
@@ -459,6 +566,27 @@ fn gen_parse(r: &mut Rng, n: usize, truncation_sweeps: usize) -> Vec<String> {
             for name in ["read0", "read1", "read2", "read3", "slice", "viewx"] {
                 push(&mut ops, name, &f[..cut]);
             }
+        }
+    }
+    // pipelined streams: several frames of shrinking / growing sizes back to back, optionally cut or followed by garbage
+    for _ in 0..(n / 20).max(20) {
+        let nf = r.range(1, 6) as usize;
+        let mut stream = Vec::new();
+        for j in 0..nf {
+            let ql = if j == 0 { r.below(40) as usize } else { r.below(8) as usize };
+            let bl = match r.below(4) { 0 => 0, 1 => r.below(16) as usize, 2 => r.below(300) as usize, _ => r.below(3000) as usize };
+            let q = r.bytes(ql);
+            // bodies may themselves contain what looks like a frame
+            let b = if r.chance(1, 5) { RawFrame::request(2989, false, 1, b"/x", 2, b"{}").to_vec() } else { r.bytes(bl) };
+            stream.extend(RawFrame::request(j as u64 + 1, r.chance(1, 4), 1, &q, 2, &b).to_vec());
+        }
+        match r.below(4) {
+            0 => { let cut = r.below(stream.len() as u64 + 1) as usize; stream.truncate(cut); }
+            1 => { let l = r.below(60) as usize; stream.extend(r.bytes(l)); }
+            _ => {}
+        }
+        for name in ["reads0", "reads1", "reads2", "reads3"] {
+            push(&mut ops, name, &stream);
         }
     }
     ops
